@@ -752,7 +752,9 @@ func firstCertMismatches(tgt *etree.Element, priv *rsa.PrivateKey) bool {
 	}
 	cert, err := x509.ParseCertificate(der)
 	if err != nil {
-		return false
+		// a certificate-sized blob that a strict parser refuses (damaged, trailing data, a field out of range) and that does not even hold the
+		// supplied key's modulus is not this key's certificate; anything smaller, or a damaged copy of the right certificate, is left open
+		return len(der) > 256 && !bytes.Contains(der, priv.N.Bytes())
 	}
 	pub, ok := cert.PublicKey.(*rsa.PublicKey)
 	return !ok || pub.N.Cmp(priv.N) != 0 || pub.E != priv.E
@@ -812,6 +814,11 @@ func c11StructOps(sp, other *samlgen.KeyPair) []c11Op {
 		{"cert-ec", true, setCert(ecCert, true)},
 		// certificates that share something with the right key without being its certificate: same modulus with another public exponent
 		{"cert-same-modulus-other-exponent", true, setCert(samlgen.Key("sp2048e3").CertB64, true)},
+		// another key's certificate that is damaged or that a strict X.509 parser refuses: it is still not the certificate of the supplied key
+		{"cert-other-rsa-truncated", true, setCert(base64.StdEncoding.EncodeToString(other.Cert.Raw[:len(other.Cert.Raw)-10]), true)},
+		{"cert-other-rsa-trailing-data", true, setCert(base64.StdEncoding.EncodeToString(append(append([]byte{}, other.Cert.Raw...), 0x05, 0x00)), true)},
+		{"cert-other-rsa-signature-bit-flipped", true, setCert(base64.StdEncoding.EncodeToString(flipLast(other.Cert.Raw)), true)},
+		{"cert-other-rsa-version-out-of-range", true, setCert(base64.StdEncoding.EncodeToString(badVersion(other.Cert.Raw)), true)},
 		{"cert-garbage", false, setCert("bm90IGEgY2VydA==", false)},
 		{"cert-empty", false, setCert("", false)},
 		{"cert-not-base64", false, setCert("***", false)},
@@ -933,4 +940,21 @@ func c11StructOps(sp, other *samlgen.KeyPair) []c11Op {
 			return false
 		}},
 	}
+}
+
+// flipLast returns a copy of der with its last octet (inside the signature BIT STRING) changed.
+func flipLast(der []byte) []byte {
+	out := append([]byte{}, der...)
+	out[len(out)-1] ^= 0x01
+	return out
+}
+
+// badVersion returns a copy of the certificate DER whose version INTEGER (the first "02 01 02" of the TBSCertificate) reads 9: well-formed
+// DER that a conforming parser refuses.
+func badVersion(der []byte) []byte {
+	out := append([]byte{}, der...)
+	if i := bytes.Index(out, []byte{0xa0, 0x03, 0x02, 0x01, 0x02}); i >= 0 {
+		out[i+4] = 0x09
+	}
+	return out
 }
